@@ -168,10 +168,14 @@ Restart ==
 (* Pure operators for trace validation: what a whole batch does to a quiescent *)
 (* receiver (the entries go through both filters one after the other).         *)
 StepEntry(syn, i) == IF Old(i, syn) THEN syn ELSE i
-RECURSIVE RunBatch(_, _)
-RunBatch(syn, b) == IF b = <<>> THEN syn ELSE RunBatch(StepEntry(syn, Head(b)), Tail(b))
+RECURSIVE RunFrom(_, _, _)
+RunFrom(syn, b, k) == IF k > Len(b) THEN syn ELSE RunFrom(StepEntry(syn, b[k]), b, k + 1)
+RunBatch(syn, b)   == RunFrom(syn, b, 1)
 \* positions the batch may leave the receiver at when it was cut short by an error
-Prefixes(syn, b) == {RunBatch(syn, SubSeq(b, 1, k)) : k \in 0..Len(b)}
+\* (= {RunBatch(syn, SubSeq(b, 1, k)) : k \in 0..Len(b)}, computed in one pass)
+RECURSIVE PrefixesFrom(_, _, _)
+PrefixesFrom(syn, b, k) == IF k > Len(b) THEN {syn} ELSE {syn} \cup PrefixesFrom(StepEntry(syn, b[k]), b, k + 1)
+Prefixes(syn, b) == PrefixesFrom(syn, b, 1)
 
 -------------------------------------------------------------------------------
 (* Properties.                                                                 *)
